@@ -8,11 +8,20 @@ registered name), suites are `lemoncheesecake.suite.core.Suite` objects whose `o
 class carrying `lcc.inject_fixture(...)` attributes, dependencies are dotted-path strings resolved with
 `resolve_tests_dependencies(suites, suites)` exactly as the CLI path does.
 """
+import re
+
 import lemoncheesecake.api as lcc
 from lemoncheesecake.fixture import FixtureRegistry, load_fixtures_from_func
 from lemoncheesecake.suite.core import Suite, Test, resolve_tests_dependencies
 
 from run import gen as G
+
+
+def ident(name):
+    """a Python identifier for a node NAME (names may contain dots or other characters: `@lcc.test(name="v1.2")`,
+    parametrized naming schemes; the function / class behind the node is named differently then)"""
+    out = re.sub(r"\W", "_", str(name))
+    return out if out.isidentifier() else "n_" + out
 
 
 def make_func(name, params, impl):
@@ -41,7 +50,7 @@ def _build_suite(s, prefix, interp):
     path = prefix + [s["name"]]
     obj = None
     if s["injected"]:
-        cls = type("Suite_" + s["name"], (), {n: lcc.inject_fixture(n) for n in s["injected"]})
+        cls = type("Suite_" + ident(s["name"]), (), {n: lcc.inject_fixture(n) for n in s["injected"]})
         obj = cls()
     suite = Suite(obj, s["name"], "suite " + s["name"])
     suite.rank = s["rank"]
@@ -73,7 +82,7 @@ def _build_suite(s, prefix, interp):
                 with interp.rec.cv:
                     interp.injected_seen.append([tpath, seen])
             interp.run_unit(["body", tpath], script, kw)
-        test = Test(t["name"], "test " + t["name"], make_func(t["name"], t["fixtures"], body))
+        test = Test(t["name"], "test " + t["name"], make_func(ident(t["name"]), t["fixtures"], body))
         test.rank = t["rank"]
         test.disabled = t["disabled"]
         test.dependencies = [".".join(d) for d in t["deps"]]
